@@ -97,19 +97,19 @@ theorem inp_table_complete :
       "control.setting.pressure", "control.setting.flow", "control.threshold.head", "control.threshold.pressure"].all
       fun n => Gen.inpConvs.any fun c => c.name == n) = true := by decide
 
-private theorem inpOk_of_mem {c : InpConv} (hc : c ∈ Gen.inpConvs) {u : Nat} (hu : u ∈ inpUnits) (dw : Bool) :
+theorem inpOk_of_mem {c : InpConv} (hc : c ∈ Gen.inpConvs) {u : Nat} (hu : u ∈ inpUnits) (dw : Bool) :
     inpConvOk u dw c = true := by
   have h := List.all_eq_true.mp inp_table_ok u hu
   have h2 := List.all_eq_true.mp h dw (by cases dw <;> simp)
   exact List.all_eq_true.mp h2 c hc
 
-private theorem binOk_of_mem {b : BinConv} (hb : b ∈ Gen.binConvs) {u : Nat} (hu : u ∈ inpUnits) (dw : Bool) :
+theorem binOk_of_mem {b : BinConv} (hb : b ∈ Gen.binConvs) {u : Nat} (hu : u ∈ inpUnits) (dw : Bool) :
     binConvOk u dw b = true := by
   have h := List.all_eq_true.mp bin_table_ok u hu
   have h2 := List.all_eq_true.mp h dw (by cases dw <;> simp)
   exact List.all_eq_true.mp h2 b hb
 
-private theorem inv_bound {a b x : Rat} (h : invOk a b = true) : |x * a * b - x| ≤ epsInv * |x| := by
+theorem inv_bound {a b x : Rat} (h : invOk a b = true) : |x * a * b - x| ≤ epsInv * |x| := by
   simp only [invOk, Bool.and_eq_true, decide_eq_true_eq] at h
   rw [mul_assoc]
   exact abs_le_of_bounds h.1 h.2
